@@ -21,6 +21,49 @@ def _serde_fns(prog, ty):
     return ser, seq
 
 
+def _restored_after_load(prog, ty, field):
+    """`ty.field` is configuration restored after a checkpoint load: some method of `ty` assigns it from one of its own
+    parameters on every path, and Builder::check calls that method on every path from load_execution_path to the first
+    Scheduler::run."""
+    fn = prog.fn(CHECK)
+    if fn is None:
+        return False
+    inst = prog.ident(CHECK)
+    loads = [b for (b, t, c) in prog.sites(inst) if prog.callee_key(c) == "model::checkpoint::load_execution_path"]
+    runs = [b for (b, t, c) in prog.sites(inst) if prog.callee_key(c) == "rt::scheduler::Scheduler::run"]
+    if not loads or not runs:
+        return False
+    for w in prog.writers().get((ty, field), []):
+        if w["kind"] != "assign" or not w.get("exact"):
+            continue
+        m = prog.fns[w["fn"]]
+        if m.j.get("impl_adt") != ty or m.kind == "Closure":
+            continue
+        if strip(rv_expr(prog, w))[0] != "param" or not every_path_passes(m.body, [w["bb"]]):
+            continue
+        calls = [b for (b, t, c) in prog.sites(inst) if prog.callee_key(c) == w["fn"]]
+        if calls and all(_passes_before(fn.body, l, calls, runs) for l in loads):
+            return True
+    return False
+
+
+def _passes_before(body, start, through, stops):
+    """Every path from the end of block `start` reaches one of `through` before any of `stops` (or never reaches a stop)."""
+    seen = set()
+    dq = list(body.succs(start))
+    through = set(through)
+    stops = set(stops)
+    while dq:
+        b = dq.pop()
+        if b in seen or b in through:
+            continue
+        seen.add(b)
+        if b in stops:
+            return False
+        dq.extend(body.succs(b))
+    return True
+
+
 def Z1(ctx):
     """Serialisation completeness of the checkpointed path (feature `checkpoint`), read off the *expanded* derives:
     `serialize` emits every field / variant under its own name from the same field of self, and the sequence visitor of
@@ -56,6 +99,9 @@ def Z1(ctx):
                 if k.endswith("Serializer::serialize_newtype_struct"):
                     got[fields[0]] = canon(strip(arg_expr(fn.body, t, 2)))
             missing = [f for f in fields if got.get(f) != "self." + f]
+            # configuration fields: deliberately not stored, but set again from the Builder right after a checkpoint is loaded
+            restored = [f for f in missing if _restored_after_load(prog, ty, f)]
+            missing = [f for f in missing if f not in restored]
             sfn = prog.fns[seq]
             ctor_ok = False
             defaults = []
@@ -65,13 +111,15 @@ def Z1(ctx):
                         ctor_ok = True
                         for f, o in zip(st["rv"]["field_names"], st["rv"]["ops"]):
                             e = sfn.body.expr_of_operand(o)
-                            if "next_element" not in canon(e):
+                            if "next_element" not in canon(e) and f not in restored:
                                 defaults.append(f)
             if missing or defaults or not ctor_ok:
                 ctx.bad("Z1", ty, "field(s) of %s are not round-tripped by the derived (de)serialisation: not serialised %s, not read back %s - "
                         "a reloaded checkpoint differs from the stored path" % (ty, missing, defaults), loc, detail="attr")
             else:
-                ctx.ok("Z1", ty, "all %d field(s) serialised under their own name and read back" % len(fields), [prog.fns[ser].loc()])
+                ctx.ok("Z1", ty, "all %d field(s) serialised under their own name and read back%s" %
+                       (len(fields) - len(restored), (" (%s: configuration, set again after every load)" % ", ".join(restored)) if restored else ""),
+                       [prog.fns[ser].loc()])
         else:
             variants = [v["name"] for v in adt["variants"]]
             got = set()
